@@ -43,18 +43,25 @@
    (Model/Evtx.v over the parser's enumeration) or a journal (Model/Journal.v, libsystemd an
    oracle): [pkind], [worker_out] / [spec_out] per kind, [oracles] bundles the oracle functions.
 
+   THIRD STAGE.  (1) a journal entry's text and merge instant are Model/JournalRender.v for the ten
+   --journal-output forms (no oracle); (2) a text file runs over the CACHED reader machine of
+   Model/Caches.v (block-zero analysis pattern, then the stage driver with a drop plan) wherever work
+   package A proves a driver theorem (every file without a datetime window, every streamed file:
+   [cached_case]) and, for a seekable file with a window, the binary search threaded through that machine
+   (Section SSearch, [cached_win_worker]); [program_pure] keeps every text file on the pure block-wise reader; (3) the year
+   walk of a year-less file stops early at --dt-after ([walk_until], finding F17).
+
    Out of the composed model (each is a hypothesis of program_correct or named in the check):
-   the container formats of event logs and journals, the early stop of the year walk at --dt-after,
-   I/O errors, a print error (EPIPE), SIGINT. *)
+   the container formats of event logs and journals, the caches of a year-less file (pure reader there), I/O errors, a print error (EPIPE), SIGINT. *)
 From Coq Require Import List NArith ZArith Bool Arith.
 Import ListNotations.
 From S4.Base Require Bytes Chunk.
 From S4.Spec Require LinesSpec WindowSpec.
 From Coq Require Sorted.
 From S4.Spec Require RecordsSpec JournalSpec.
-From S4.Model Require Lines Syslines Search Merge Coord Strftime Print Summary Gate.
-From S4.Model Require Calendar Year Records RecordRender LayoutDetect Evtx Journal.
-From S4.Gen Require FixedStructTables.
+From S4.Model Require Lines Syslines Search Merge Coord Strftime Print Summary Gate Caches.
+From S4.Model Require Calendar Year Records RecordRender LayoutDetect Evtx Journal JournalRender.
+From S4.Gen Require FixedStructTables JournalTables.
 
 (* ================================================================ inputs *)
 
@@ -63,7 +70,9 @@ From S4.Gen Require FixedStructTables.
 Record options := mkOptions {
   op_cli : Summary.cli;
   op_after : option Z;
-  op_before : option Z }.
+  op_before : option Z;
+  op_jout : JournalRender.output;      (* --journal-output *)
+  op_jenv : JournalRender.env }.       (* what a run adds to a journal entry: the zone of --tz-offset, one bit of the host *)
 
 (* ================================================================ the search loop over an abstract find *)
 
@@ -275,6 +284,145 @@ Arguments g_last_found {M} _.
 Arguments GContinue {M} st.
 Arguments GReturn {M} r.
 
+(* ================================================================ the same loop over a find WITH STATE *)
+
+(* SyslineReader::find_sysline changes the reader (caches, stored lines, blocks): [sfind st fo] returns the
+   new state; [sdrop st m] is SyslogProcessor::drop_data_try(m).  The binary search, find_between and the
+   stage-2/3 driver are those of Section GSearch with the reader state threaded through; stage 3 calls
+   drop_data_try(the message before) at the opportunities [plan] selects (Model/Caches.v plan_at). *)
+Section SSearch.
+  Variable St M : Type.
+  Variable view : M -> Search.sl.
+  Variable sfind : St -> N -> St * gfres M.
+  Variable sdrop : St -> M -> St.
+  Variable filesz : N.
+
+  Local Open Scope N_scope.
+
+  Section SBsearch.
+    Variable dt_filter : option Z.
+    Variable fileoffset : N.
+
+    Definition s_endgame (done : bool) (st : gbst M) (s : St) : St * gbout M :=
+      if done && (g_try_fo st =? g_try_fo_last st) then (s, GReturn GSDone)
+      else if negb (g_try_fo st =? g_try_fo_last st) then (s, GContinue st)
+      else
+        match g_last_found st with
+        | None => (s, GReturn (GSPanic 4))
+        | Some m =>
+          let v := view m in
+          let fo_beg := Search.s_beg v in
+          if g_is_last view filesz m && (fo_beg <? g_try_fo st) then (s, GReturn GSDone)
+          else if fo_beg <? g_try_fo st then
+            match sfind s (Search.s_next v) with
+            | (s', GDone) => (s', GReturn GSDone)
+            | (s', GFault c) => (s', GReturn (GSFault c))
+            | (s', GFound _ mn) =>
+              (s', match Search.dt_after_or_before (Search.s_t v) dt_filter,
+                         Search.dt_after_or_before (Search.s_t (view mn)) dt_filter with
+                   | _, Search.Pass | Search.Pass, _ => GReturn (GSDoneErr 1)
+                   | Search.OccursBefore, Search.OccursBefore => GReturn (g_found_next view mn)
+                   | Search.OccursBefore, Search.OccursAtOrAfter => GReturn (g_found_next view mn)
+                   | Search.OccursAtOrAfter, Search.OccursAtOrAfter => GReturn (g_found_next view m)
+                   | Search.OccursAtOrAfter, Search.OccursBefore => GReturn (GSDoneErr 2)
+                   end)
+            end
+          else (s, GReturn (g_found_next view m))
+        end.
+
+    Definition s_bmatch (s : St) (st : gbst M) : St * ((bool * gbst M) + gsres M) :=
+      match sfind s (g_try_fo st) with
+      | (s', GFound fo m) =>
+        (s', let v := view m in
+             match Search.dt_after_or_before (Search.s_t v) dt_filter with
+             | Search.Pass => inr (GSFound fo m)
+             | Search.OccursAtOrAfter =>
+               if g_try_fo st =? fileoffset then inr (GSFound fo m)
+               else
+                 let tl := g_try_fo st in
+                 let b' := N.min (Search.s_beg v) tl in
+                 if g_fo_a st <=? b' then
+                   inl (false, mkGB (g_fo_a st + (b' - g_fo_a st) / 2) tl (g_fo_a st) b' (Some m))
+                 else inr (GSPanic 1)
+             | Search.OccursBefore =>
+               let foe := Search.s_end v in
+               let tl := g_try_fo st in
+               if tl <=? foe then
+                 let a' := N.min foe (g_fo_b st) in
+                 inl (false, mkGB (a' + (g_fo_b st - a') / 2) tl a' (g_fo_b st) (Some m))
+               else inr (GSPanic 2)
+             end)
+      | (s', GDone) =>
+        (s', if g_fo_a st <=? g_fo_b st then
+               inl (true, mkGB (g_fo_a st + (g_fo_b st - g_fo_a st) / 2) (g_try_fo st) (g_fo_a st) (g_fo_b st)
+                               (g_last_found st))
+             else inr (GSPanic 3))
+      | (s', GFault c) => (s', inr (GSFault c))
+      end.
+
+    Definition s_bstep (s : St) (st : gbst M) : St * gbout M :=
+      match s_bmatch s st with
+      | (s', inr r) => (s', GReturn r)
+      | (s', inl (done, st')) => s_endgame done st' s'
+      end.
+
+    Fixpoint s_bloop (fuel : nat) (s : St) (st : gbst M) : St * gsres M :=
+      match fuel with
+      | O => (s, GSOutOfFuel)
+      | S k => match s_bstep s st with
+               | (s', GReturn r) => (s', r)
+               | (s', GContinue st') => s_bloop k s' st'
+               end
+      end.
+
+    Definition s_bsearch (fuel : nat) (s : St) : St * gsres M := s_bloop fuel s (g_bstart filesz fileoffset).
+  End SBsearch.
+
+  (* find_sysline_between_datetime_filters on a seekable file *)
+  Definition s_find_between (fa fb : option Z) (fileoffset : N) (s : St) : St * gsres M :=
+    match s_bsearch fa fileoffset (Search.bfuel filesz) s with
+    | (s', GSFound fo m) =>
+      (s', match Search.dt_pass_filters (Search.s_t (view m)) fa fb with
+           | Search.InRange => GSFound fo m
+           | Search.BeforeRange => GSDoneErr 3
+           | Search.AfterRange => GSDone
+           end)
+    | x => x
+    end.
+
+  (* exec_syslogprocessor stage 2 + 3, with drop_data_try(the message before) after every message but the last *)
+  Fixpoint s_stream (fuel : nat) (fa fb : option Z) (plan : list bool) (i : nat) (s : St) (fo1 : N) (prev : option M)
+    : St * (list (M * bool) * gstatus) :=
+    match fuel with
+    | O => (s, ([], GNoFuel))
+    | S k =>
+      match s_find_between fa fb fo1 s with
+      | (s1, GSFound fo m) =>
+        if g_is_last view filesz m then (s1, ([(m, true)], GOk))
+        else
+          let '(s2, i2) := match prev with
+                           | Some p => (if Caches.plan_at plan i then sdrop s1 p else s1, S i)
+                           | None => (s1, i)
+                           end in
+          let '(s3, (out, st)) := s_stream k fa fb plan i2 s2 fo (Some m) in
+          (s3, ((m, false) :: out, st))
+      | (s1, GSDone) => (s1, ([], GOk))
+      | (s1, GSDoneErr c) => (s1, ([], GErr c))
+      | (s1, GSPanic c) => (s1, ([], GPanicked c))
+      | (s1, GSOutOfFuel) => (s1, ([], GNoFuel))
+      | (s1, GSFault c) => (s1, ([], GFaulted c))
+      end
+    end.
+End SSearch.
+
+Arguments s_stream {St M} view sfind sdrop filesz fuel fa fb plan i s fo1 prev.
+Arguments s_find_between {St M} view sfind filesz fa fb fileoffset s.
+Arguments s_bsearch {St M} view sfind filesz dt_filter fileoffset fuel s.
+Arguments s_bloop {St M} view sfind filesz dt_filter fileoffset fuel s st.
+Arguments s_bstep {St M} view sfind filesz dt_filter fileoffset s st.
+Arguments s_bmatch {St M} view sfind dt_filter fileoffset s st.
+Arguments s_endgame {St M} view sfind filesz dt_filter done st s.
+
 (* ================================================================ generic stable sort (spec side) *)
 
 Section SortBy.
@@ -304,6 +452,14 @@ Definition zmin_list (l : list Z) : option Z :=
   match l with [] => None | x :: r => Some (fold_left Z.min r x) end.
 Definition zmax_list (l : list Z) : option Z :=
   match l with [] => None | x :: r => Some (fold_left Z.max r x) end.
+
+(* what the composed model takes from a run besides the schedule, per text worker: how many
+   find_line_in_block / find_sysline_in_block calls block-zero analysis made, and which of the
+   drop_data_try opportunities of stage 3 ran (Model/Caches.v `plan`); for a streamed file, which block
+   discipline its container has (sequential decoder with look-behind drop / sliced at open / re-read on
+   every miss).  The theorems hold for EVERY value *)
+Record rparams := mkRp { rp_k1 : nat; rp_k2 : nat; rp_plan : list bool;
+                         rp_ck : Caches.ckind }.     (* a streamed file's container: .gz/.bz2/.lz4, .xz, tar member *)
 
 Section Oracles.
   Variable dated : list N -> option Z.
@@ -355,6 +511,93 @@ Section Oracles.
         (map (fun mb => (pmsg_of bs f (r_sys (fst mb)), snd mb)) out, st)
     | _ => ([], GOk)
     end.
+
+  (* ============================================================== the same worker over the CACHED reader *)
+
+  (* Model/Caches.v (work package A) is the reader AS THE CODE RUNS IT: BlockReader (which blocks are read,
+     stored, dropped; the look-behind drop of a streamed container), LineReader and SyslineReader with their
+     maps and LRU caches.  A text worker is: stage 1 on that reader (c_gate: k1 find_line_in_block and k2
+     find_sysline_in_block calls from offset 0), then stages 2 + 3 = the stage driver with a drop plan:
+       - a file WITHOUT datetime window: c_stream (find_sysline at 0, then at each fo_next;
+         drop_data_try of the message before);
+       - a STREAMED file with a window: c_stream_win (the linear search of
+         find_sysline_at_datetime_filter, find_sysline_between_datetime_filters).
+       - a SEEKABLE file WITH a window: the binary search of find_sysline_at_datetime_filter (Section
+         SSearch: the loop of Section GSearch with the reader state threaded through) calling
+         find_sysline of that machine, drop_data_try of the message before after every message
+         (cached_win_worker below; work package A's step lemmas find_step / drop_try_ok apply because
+         every call of a search started at fileoffset is at or after fileoffset, and everything dropped
+         lies before it).
+     The year-less files (reverse pass of process_missing_year first) run over the pure block-wise reader
+     (text_worker above). *)
+  Definition cached_case (a b : option Z) (streamed : bool) : bool :=
+    streamed || match a, b with None, None => true | _, _ => false end.
+
+  (* the datum sent for a stored Sysline: its line parts as slices, SyslineReader::is_sysline_last *)
+  Definition cmsg_of (bs : N) (f : Chunk.file) (s : Caches.ssl) : Print.msg * bool :=
+    (pmsg_of bs f (Caches.ss_sysline s), Syslines.is_sysline_last bs f (Caches.ss_sysline s)).
+
+  Definition cached_driver (bs : N) (rp : rparams) (a b : option Z) (streamed : bool) (f : Chunk.file)
+    : Caches.sr_state * Lines.res (list Caches.ssl) :=
+    if streamed then
+      Caches.c_stream_win dated bs f a b (rp_plan rp)
+        (Caches.c_gate dated (rp_k1 rp) (rp_k2 rp) bs f (Caches.sr_init_b (Caches.b_open (rp_ck rp) bs (Chunk.lenN f))))
+    else Caches.c_stream dated bs f (rp_plan rp) (Caches.c_gate dated (rp_k1 rp) (rp_k2 rp) bs f Caches.sr_init).
+
+  Definition cached_text_worker (bs : N) (rp : rparams) (a b : option Z) (streamed : bool) (f : Chunk.file)
+    : list (Print.msg * bool) * gstatus :=
+    match Gate.gate dated bs f with
+    | Gate.FileOk =>
+        match snd (cached_driver bs rp a b streamed f) with
+        | Lines.Found l => (map (cmsg_of bs f) l, GOk)
+        | Lines.Done => ([], GFaulted 4)
+        | Lines.OutOfFuel => ([], GNoFuel)
+        | Lines.Panic => ([], GPanicked 40)        (* find_sysline inside the range of a dropped Sysline *)
+        end
+    | _ => ([], GOk)
+    end.
+
+  (* a seekable file with a window.  Sysline::fileoffset_begin / len / dt of a stored Sysline *)
+  Definition cview (bs : N) (f : Chunk.file) (s : Caches.ssl) : Search.sl :=
+    Search.mkSl (match Caches.ss_begin bs s with Some b => b | None => 0 end)
+                (Chunk.lenN (Syslines.sysline_bytes bs f (Caches.ss_sysline s))) (Caches.ss_dt s).
+
+  Definition cached_find (bs : N) (f : Chunk.file) (st : Caches.sr_state) (fo : N)
+    : Caches.sr_state * gfres Caches.ssl :=
+    match Caches.c_find_sysline dated bs f st fo with
+    | (st', Lines.Found (n, s), _) =>
+        match Caches.ss_begin bs s with Some _ => (st', GFound n s) | None => (st', GFault 1) end
+    | (st', Lines.Done, _) => (st', GDone)
+    | (st', Lines.OutOfFuel, _) => (st', GFault 2)
+    | (st', Lines.Panic, _) => (st', GFault 3)          (* inside the range of a dropped Sysline *)
+    end.
+
+  Definition cached_win_driver (bs : N) (rp : rparams) (a b : option Z) (f : Chunk.file)
+    : Caches.sr_state * (list (Caches.ssl * bool) * gstatus) :=
+    s_stream (cview bs f) (cached_find bs f) (Caches.c_drop_data_try bs) (Chunk.lenN f) (g_lfuel (Chunk.lenN f))
+             a b (rp_plan rp) 0 (Caches.c_gate dated (rp_k1 rp) (rp_k2 rp) bs f Caches.sr_init) 0 None.
+
+  Definition cached_win_worker (bs : N) (rp : rparams) (a b : option Z) (f : Chunk.file)
+    : list (Print.msg * bool) * gstatus :=
+    match Gate.gate dated bs f with
+    | Gate.FileOk =>
+        let '(out, st) := snd (cached_win_driver bs rp a b f) in
+        (map (fun mb : Caches.ssl * bool => (pmsg_of bs f (Caches.ss_sysline (fst mb)), snd mb)) out, st)
+    | _ => ([], GOk)
+    end.
+
+  (* a text file of a year-bearing notation: always over the cached machine *)
+  Definition text_worker_c (bs : N) (rp : rparams) (a b : option Z) (streamed : bool) (f : Chunk.file)
+    : list (Print.msg * bool) * gstatus :=
+    if cached_case a b streamed then cached_text_worker bs rp a b streamed f
+    else cached_win_worker bs rp a b f.
+
+  (* oracle hypothesis of block-zero analysis on the cached reader (Props/C02.v gate_then_refines): the
+     partial line find_line_in_block hands to the parser is the first byte of a line (finding F3a); it
+     never dates differently from the line *)
+  Definition first_byte_ok (f : Chunk.file) : Prop :=
+    forall b z, b < Chunk.lenN f -> LinesSpec.line_beg f b = b ->
+      dated (Chunk.slice f b (b + 1)) = Some z -> dated (Chunk.slice f b (LinesSpec.line_end f b + 1)) = Some z.
 
   (* ============================================================== the text specification *)
 
@@ -494,8 +737,6 @@ Record oracles := mkOracles {
   o_dtspan : list N -> nat * nat;                (* (dt_beg, dt_end) of the timestamp in a text (colour only) *)
   o_ydate : list N -> option Year.ymsg;          (* (month, day, time of day) when a year-less pattern matches the line *)
   o_f32 : Bytes.bytes -> Bytes.bytes;            (* format!("{}", f32) of the four bytes of an acct field *)
-  o_jtext : Journal.entry -> Bytes.bytes;        (* the text of a journal entry in the selected --journal-output *)
-  o_jinst : Journal.entry -> Z;                  (* JournalEntry::dt() in ns (source realtime when present) *)
   o_sd_head : Journal.journal -> list Journal.entry;          (* libsystemd: seek_head + next* *)
   o_sd_rt : Journal.journal -> Z -> list Journal.entry }.     (* libsystemd: seek_realtime_usec + next* *)
 
@@ -521,6 +762,41 @@ Section Kinds.
   Definition yl_table (off mtime : Z) (f : Chunk.file) : option (list (Bytes.bytes * Z)) :=
     match Year.assign_years 2 off (Year.year_of_seconds off mtime) (yl_msgs f) with
     | Some ys => Some (combine (yl_heads f) (map snd ys))
+    | None => None
+    end.
+
+  (* THE WALK AS THE CODE RUNS IT, with its early stop: after a message is accepted, `match
+     dt_after_or_before(dt, filter_dt_after) { OccursBefore => break }` — the walk ends at the first
+     message (from the end of the file) that lies before --dt-after.  The messages above it are
+     never re-dated: find_sysline later parses them with the filler year (YEAR_FALLBACKDUMMY). *)
+  Definition FILLER_YEAR : Z := 1972.
+  Fixpoint walk_until (a : option Z) (fuel : nat) (off year : Z) (prev : option Z) (rmsgs : list Year.ymsg)
+    : option (list (Z * Z)) :=
+    match rmsgs with
+    | [] => Some []
+    | m :: r =>
+        match Year.redate fuel off year prev m with
+        | Year.Dated y t =>
+            match a with
+            | Some av => if (t <? av)%Z then Some [(y, t)]
+                         else option_map (cons (y, t)) (walk_until a fuel off y (Some t) r)
+            | None => option_map (cons (y, t)) (walk_until a fuel off y (Some t) r)
+            end
+        | _ => None
+        end
+    end.
+  Definition filler_inst (off : Z) (m : Year.ymsg) : Z :=
+    match Year.with_year off FILLER_YEAR m with Some t => t | None => 0%Z end.
+  (* instants in file order: the filler for the messages the walk did not reach, then the walked ones *)
+  Definition es_instants (a : option Z) (off mtime : Z) (f : Chunk.file) : option (list Z) :=
+    let ms := yl_msgs f in
+    match walk_until a 2 off (Year.year_of_seconds off mtime) None (rev ms) with
+    | Some w => Some (map (filler_inst off) (firstn (length ms - length w) ms) ++ map snd (rev w))
+    | None => None
+    end.
+  Definition yl_table_es (a : option Z) (off mtime : Z) (f : Chunk.file) : option (list (Bytes.bytes * Z)) :=
+    match es_instants a off mtime f with
+    | Some ts => Some (combine (yl_heads f) ts)
     | None => None
     end.
   Definition yl_dated (tab : list (Bytes.bytes * Z)) (l : list N) : option Z :=
@@ -618,27 +894,48 @@ Section Kinds.
 
   (* ============================================================== journals *)
   Definition us_of_ns (z : Z) : Z := (z / 1000)%Z.      (* DateTime::timestamp_micros *)
-  Definition journal_msg (e : Journal.entry) : Print.msg * bool :=
-    (kmsg dtspan Print.KJournal (o_jinst O e) (LinesSpec.lines (o_jtext O e)), false).
-  Definition journal_worker (a b : option Z) (j : Journal.journal) : list (Print.msg * bool) * gstatus :=
-    (map journal_msg (Journal.journal_run (o_sd_head O) (o_sd_rt O) Journal.stop_after
-                                          (option_map us_of_ns a) (option_map us_of_ns b) j), GOk).
-  Definition journal_spec (a b : option Z) (j : Journal.journal) : list (Print.msg * bool) :=
-    map journal_msg (JournalSpec.window Journal.e_time (option_map us_of_ns a) (option_map us_of_ns b) j).
+  (* JournalReader::next for an entry that passed next_common: Model/JournalRender.v with the
+     configuration regenerated from the source (Gen/JournalTables.src_cfg); Found -> a message whose
+     text is the rendering and whose instant is the one the rendering shows (shown_us), ErrIgnore
+     (`cat` without MESSAGE) -> nothing, the loop continues; a formatter panic ends the worker *)
+  Definition jentry_inst (e : Journal.entry) : Z := (JournalRender.shown_us JournalTables.src_cfg e * 1000)%Z.
+  Definition journal_msg (e : Journal.entry) (text : Bytes.bytes) : Print.msg * bool :=
+    (kmsg dtspan Print.KJournal (jentry_inst e) (LinesSpec.lines text), false).
+  Fixpoint journal_emit (o : options) (es : list Journal.entry) : list (Print.msg * bool) * gstatus :=
+    match es with
+    | [] => ([], GOk)
+    | e :: r =>
+        match JournalRender.next_entry JournalTables.src_cfg (op_jenv o) (op_jout o) e with
+        | JournalRender.NFound t => let '(out, st) := journal_emit o r in (journal_msg e t :: out, st)
+        | JournalRender.NErrIgnore => journal_emit o r
+        | JournalRender.NPanic => ([], GPanicked 30)
+        end
+    end.
+  Definition journal_worker (o : options) (j : Journal.journal) : list (Print.msg * bool) * gstatus :=
+    journal_emit o (Journal.journal_run (o_sd_head O) (o_sd_rt O) Journal.stop_after
+                                        (option_map us_of_ns (op_after o)) (option_map us_of_ns (op_before o)) j).
+  (* spec: the in-window entries (receive time, bounds truncated to the microsecond), journal
+     order, each rendered in the selected output form; `cat` skips entries without MESSAGE *)
+  Definition journal_spec (o : options) (j : Journal.journal) : list (Print.msg * bool) :=
+    flat_map (fun e => match JournalRender.next_entry JournalTables.src_cfg (op_jenv o) (op_jout o) e with
+                       | JournalRender.NFound t => [journal_msg e t]
+                       | _ => []
+                       end)
+             (JournalSpec.window Journal.e_time (option_map us_of_ns (op_after o)) (option_map us_of_ns (op_before o)) j).
 
   (* ============================================================== one worker, one source of the spec *)
-  Definition worker_out (bs : N) (o : options) (pf : pfile) : list (Print.msg * bool) * gstatus :=
+  Definition worker_pure (bs : N) (o : options) (pf : pfile) : list (Print.msg * bool) * gstatus :=
     let a := op_after o in let b := op_before o in
     match pf_kind pf with
     | KText => text_worker dated dtspan bs a b (pf_streamed pf) (pf_data pf)
     | KYearless off mtime =>
-        match yl_table off mtime (pf_data pf) with
+        match yl_table_es a off mtime (pf_data pf) with        (* stage 2: the year walk, stopped early at --dt-after *)
         | Some tab => text_worker (yl_dated tab) dtspan bs a b (pf_streamed pf) (pf_data pf)
         | None => ([], GFaulted 20)          (* a message that has no date in a candidate year (Issue #245) *)
         end
     | KRecords hint _ => records_worker a b hint (pf_data pf)
     | KEvtxFile recs => evtx_worker a b recs
-    | KJournalFile j => journal_worker a b j
+    | KJournalFile j => journal_worker o j
     end.
 
   Definition spec_out (o : options) (pf : pfile) : list (Print.msg * bool) :=
@@ -652,31 +949,45 @@ Section Kinds.
         end
     | KRecords _ lname => records_spec a b lname (pf_data pf)
     | KEvtxFile recs => evtx_spec a b recs
-    | KJournalFile j => journal_spec a b j
+    | KJournalFile j => journal_spec o j
     end.
 
   (* ============================================================== the composed code-level model *)
 
+  (* the worker as the code runs it: a text file over the cached reader machine where work package A
+     has a driver theorem (cached_case), every other source as in worker_pure *)
+  Definition worker_out (bs : N) (rp : rparams) (o : options) (pf : pfile) : list (Print.msg * bool) * gstatus :=
+    match pf_kind pf with
+    | KText => text_worker_c dated dtspan bs rp (op_after o) (op_before o) (pf_streamed pf) (pf_data pf)
+    | _ => worker_pure bs o pf
+    end.
+
   (* all workers, in PathId order; the first abnormal one is reported *)
-  Fixpoint workers (bs : N) (o : options) (i : nat) (files : list pfile)
+  Fixpoint workers_of (W : nat -> pfile -> list (Print.msg * bool) * gstatus) (i : nat) (files : list pfile)
     : list (list Summary.event) + (nat * gstatus) :=
     match files with
     | [] => inl []
     | pf :: r =>
-        match worker_out bs o pf with
+        match W i pf with
         | (out, GOk) =>
-            match workers bs o (S i) r with
+            match workers_of W (S i) r with
             | inl l => inl (mk_events i out :: l)
             | inr e => inr e
             end
         | (_, st) => inr (i, st)
         end
     end.
+  Definition workers_pure (bs : N) (o : options) : nat -> list pfile -> list (list Summary.event) + (nat * gstatus) :=
+    workers_of (fun _ pf => worker_pure bs o pf).
+  Definition workers (bs : N) (rps : nat -> rparams) (o : options) : nat -> list pfile -> list (list Summary.event) + (nat * gstatus) :=
+    workers_of (fun i pf => worker_out bs (rps i) o pf).
 
   Definition sources_of (files : list pfile) : list Summary.source := map pf_src files.
 
-  Definition program_m (cap : nat) (bs : N) (sched : schedule) (o : options) (files : list pfile) : outcome :=
-    match workers bs o 0 files with
+  (* coordinator under the schedule, print site, summary *)
+  Definition finish (cap : nat) (sched : schedule) (o : options) (files : list pfile)
+             (w : list (list Summary.event) + (nat * gstatus)) : outcome :=
+    match w with
     | inr (i, st) => PWorker i st
     | inl evs =>
         match Coord.run cap (Coord.init (tags_of evs)) sched with
@@ -689,6 +1000,14 @@ Section Kinds.
             else PNotFinal
         end
     end.
+
+  (* THE COMPOSED CODE-LEVEL MODEL: the text readers with their caches (rps: per PathId the reader parameters) *)
+  Definition program_m (cap : nat) (bs : N) (rps : nat -> rparams) (sched : schedule) (o : options) (files : list pfile) : outcome :=
+    finish cap sched o files (workers bs rps o 0 files).
+
+  (* the same with every text file over the pure block-wise reader (Model/Lines.v, Model/Syslines.v) *)
+  Definition program_pure (cap : nat) (bs : N) (sched : schedule) (o : options) (files : list pfile) : outcome :=
+    finish cap sched o files (workers_pure bs o 0 files).
 
   (* ============================================================== the specification *)
 
@@ -728,9 +1047,20 @@ Section Kinds.
   (* the hypotheses of the component theorems, per source kind *)
   Definition src_ok (o : options) (pf : pfile) : Prop :=
     match pf_kind pf with
-    | KText => file_ok dated (pf_data pf)                                   (* C03, C01 *)
-    | KYearless off mtime =>                                                (* C11: the walk dates every message *)
-        exists tab, yl_table off mtime (pf_data pf) = Some tab /\ file_ok (yl_dated tab) (pf_data pf)
+    | KText => file_ok dated (pf_data pf) /\                                (* C03, C01 *)
+               first_byte_ok dated (pf_data pf)                              (* C02 gate_then_refines *)
+    | KYearless off mtime =>
+        let f := pf_data pf in
+        (* C11: the full walk dates every message; the file is a text file under the INFERRED instants *)
+        (exists tab, yl_table off mtime f = Some tab /\ file_ok (yl_dated tab) f) /\
+        (* the run as the code performs it (walk stopped early): also a text file, ... *)
+        (exists tes, yl_table_es (op_after o) off mtime f = Some tes /\ file_ok (yl_dated tes) f) /\
+        NoDup (yl_heads f) /\                      (* the oracle is a function of the line: equal head lines would share an instant *)
+        (* ... and the window does not reach back to the filler year (finding F17): every message the
+           walk did not reach lies before --dt-after under its filler date too *)
+        (forall av, op_after o = Some av ->
+           forall w, walk_until (op_after o) 2 off (Year.year_of_seconds off mtime) None (rev (yl_msgs f)) = Some w ->
+           Forall (fun m => (filler_inst off m < av)%Z) (firstn (length (yl_msgs f) - length w) (yl_msgs f)))
     | KRecords hint lname =>
         let f := pf_data pf in
         (exists s, p_detect hint f = Some (Some lname, s)) /\                (* C08 detection picks the file's layout *)
@@ -745,9 +1075,9 @@ Section Kinds.
         Journal.J1_contract (o_sd_head O) (o_sd_rt O) /\                    (* C09 *)
         Journal.nondecreasing (Journal.times j) /\ Journal.valid_realtimes (Journal.times j) /\
         JournalSpec.bound_rep (option_map us_of_ns (op_after o)) /\ JournalSpec.bound_rep (option_map us_of_ns (op_before o)) /\
-        Forall (fun e => nl_terminated (o_jtext O e)) j /\
-        Sorted.StronglySorted Z.le (map (o_jinst O)                         (* the merge instants do not step back *)
-           (JournalSpec.window Journal.e_time (option_map us_of_ns (op_after o)) (option_map us_of_ns (op_before o)) j))
+        (* every rendering of an in-window entry ends with a newline (print_journalentry_* precondition) *)
+        Forall (fun e => nl_terminated (JournalRender.entry_bytes
+                            (JournalRender.next_entry JournalTables.src_cfg (op_jenv o) (op_jout o) e))) j
     end.
 
   Definition domain (o : options) (files : list pfile) : Prop :=
@@ -755,11 +1085,11 @@ Section Kinds.
 
   (* stage 1 accepted every TEXT file at this block size (C12: the gate is NOT block-size
      independent, findings F3a-d; hence a hypothesis that names the block size) *)
-  Definition gate_passed (bs : N) (files : list pfile) : Prop :=
+  Definition gate_passed (bs : N) (o : options) (files : list pfile) : Prop :=
     Forall (fun pf => match pf_kind pf with
                       | KText => Gate.gate dated bs (pf_data pf) = Gate.FileOk
-                      | KYearless off mtime =>
-                          forall tab, yl_table off mtime (pf_data pf) = Some tab ->
+                      | KYearless off mtime =>      (* stage 1 sees the lines as the stopped walk leaves them dated *)
+                          forall tab, yl_table_es (op_after o) off mtime (pf_data pf) = Some tab ->
                                       Gate.gate (yl_dated tab) bs (pf_data pf) = Gate.FileOk
                       | _ => True
                       end) files.
@@ -771,4 +1101,4 @@ Definition undecorated (c : Summary.cli) : Summary.cli :=
      Summary.c_psep := []; Summary.c_fmt := None; Summary.c_off := Summary.c_off c;
      Summary.c_sep := []; Summary.c_summary := Summary.c_summary c |}.
 Definition undecorated_opts (o : options) : options :=
-  mkOptions (undecorated (op_cli o)) (op_after o) (op_before o).
+  mkOptions (undecorated (op_cli o)) (op_after o) (op_before o) (op_jout o) (op_jenv o).
